@@ -211,8 +211,11 @@ var (
 
 // abstract named types modelled as a single term of an uninterpreted sort
 var abstractTypes = map[string]string{
-	"time.Time":     "Time",
-	"time.Location": "TimeLoc",
+	"time.Time":              "Time",
+	"time.Location":          "TimeLoc",
+	"crypto/x509.CertPool":   "CertPool",
+	"math/big.Int":           "BigInt",
+	"crypto/x509/pkix.Name":  "PkixName",
 }
 
 func abstractSort(t types.Type) (smt.Sort, bool) {
